@@ -16,6 +16,15 @@ def _rand_poly(rng, rows, cols):
     coef = (lambda: rng.choice([-1, 1]) * rng.randint(5, 120)) if big else (lambda: rng.choice(PALETTE))
     A = [[coef() if rng.random() < 0.75 else 0 for _ in range(cols)] for _ in range(rows)]
     b = [rng.randint(-5, 5) * (rng.choice([1, 7, 25, 49, 75]) if big else 1) for _ in range(rows)]
+    if big and rng.random() < 0.6:
+        # right-hand sides that are exact multiples of a coefficient: quotients are integers, rounding must not move them
+        for i in range(rows):
+            nz = [j for j in range(cols) if A[i][j] != 0]
+            if nz:
+                j = rng.choice(nz)
+                if rng.random() < 0.5:
+                    A[i] = [A[i][j] if t == j else (A[i][t] if rng.random() < 0.3 else 0) for t in range(cols)]
+                b[i] = A[i][j] * rng.randint(-3, 3)
     M = np.array([[bi] + ai for bi, ai in zip(b, A)], dtype=np.int64).reshape(rows, cols + 1)
     vs = [puan.variable(0, (1, 1))] + [puan.variable("v%d" % j, rng.choice(BOXES)) for j in range(cols)]
     idx = [puan.variable("r%d" % i) for i in range(rows)]
@@ -50,8 +59,20 @@ def c12_tighten(tier, seed):
                 "some bound tightened, empty)")
     rng = random.Random(seed + 101)
     n = 250 if tier == "quick" else 2500
-    for _ in range(n):
-        p = _rand_poly(rng, rng.randint(1, 3), rng.randint(1, 3))
+    import puan
+    import puan.ndarray as pnd
+
+    def sweep():
+        # one-variable rows a*x >= a*k for every coefficient magnitude up to 130: the quotient is an exact integer
+        for a in range(2, 131):
+            for sgn in (1, -1):
+                for k in (1, 2):
+                    box = (0, 1) if k == 1 else (-3, 3)
+                    yield pnd.ge_polyhedron(np.array([[sgn * a * k, sgn * a]], dtype=np.int64),
+                                            variables=[puan.variable(0, (1, 1)), puan.variable("v0", box)],
+                                            index=[puan.variable("r0")])
+    stream = itertools.chain(sweep(), (_rand_poly(rng, rng.randint(1, 3), rng.randint(1, 3)) for _ in range(n)))
+    for p in stream:
         cols = list(p.A.variables)
         try:
             lb, ub = p.tighten_column_bounds()
@@ -267,6 +288,15 @@ def c20_bridges(tier, seed):
             tl = ba.to_list()
             if [v.id for v in tl] != [c for c in ctx if c in lst]:
                 _viol(r, "c20.to_list", {"list": lst, "context": ctx}, got=[str(v.id) for v in tl])
+            # entries other than 0/1 (e.g. a sum or difference of two list vectors): exactly the 1-entries are returned
+            vals = [rng.choice([0, 1, 1, 2, -1]) for _ in ctx]
+            ba2 = pnd.boolean_ndarray(np.array(vals), variables=[puan.variable(c) for c in ctx])
+            if [v.id for v in ba2.to_list()] != [c for c, x in zip(ctx, vals) if x == 1]:
+                _viol(r, "c20.to_list", {"entries": vals, "context": ctx}, got=[str(v.id) for v in ba2.to_list()])
+            ba3 = pnd.boolean_ndarray(np.array([vals, vals[::-1]]), variables=[puan.variable(c) for c in ctx])
+            want3 = [[c for c, x in zip(ctx, row) if x == 1] for row in (vals, vals[::-1])]
+            if [[v.id for v in row] for row in ba3.to_list()] != want3:
+                _viol(r, "c20.to_list", {"entries": [vals, vals[::-1]], "context": ctx})
         # A / b
         rows = rng.randint(1, 3)
         M = np.array([[rng.randint(-4, 4) for _ in range(k + 1)] for _ in range(rows)], dtype=np.int64)
@@ -382,6 +412,21 @@ def c13_compress(tier, seed):
                 _viol(r, "c13.shadow-1d", {"array": v}, got=got)
         except Exception as e:
             _viol(r, "c13.shadow-1d-raises", {"array": v}, error=repr(e))
+        # priorities beyond 2**53 that differ in their low bits (exact integer arithmetic is required)
+        big = [2 ** 53 + rng.randint(0, 3) for _ in range(rng.randint(2, 3))] + [rng.randint(1, 5)]
+        rng.shuffle(big)
+        try:
+            got = [int(x) for x in np.asarray(pnd.integer_ndarray(np.array(big, dtype=np.int64)).ndint_compress(method="shadow", axis=0)).tolist()]
+            r["evaluations"] += 1
+            r["_seen"].add(("shadow", 1, 0, "huge", len(set(big)) < len(big)))
+            ok = all((abs(a) == abs(b_)) == (ga == gb) and (a < b_) == (ga < gb) for a, ga in zip(big, got) for b_, gb in zip(big, got))
+            if not ok:
+                _viol(r, "c13.shadow-1d", {"array": big}, got=got)
+            gr = [int(x) for x in np.asarray(pnd.integer_ndarray(np.array(big, dtype=np.int64)).ndint_compress(method="rank", axis=0)).tolist()]
+            if not all((a == b_) == (ga == gb) and (a < b_) == (ga < gb) for a, ga in zip(big, gr) for b_, gb in zip(big, gr)):
+                _viol(r, "c13.rank", {"array": big}, rank=gr)
+        except Exception as e:
+            _viol(r, "c13.shadow-1d-raises", {"array": big}, error=repr(e))
         # batched 3-D: equals per-batch 2-D
         B = [[[rng.choice([-2, -1, 0, 1, 2]) for _ in range(cols)] for _ in range(rows)] for _ in range(2)]
         try:
